@@ -110,6 +110,8 @@ type cliCfg struct {
 	input    string // stdin | files
 	omode    string // "" | "-" | "path"
 	stale    bool   // the -o FILE already exists with other, longer content
+	inplace  bool   // -o names the (single) input file
+	dupFirst int    // 0: no; 1: the first file operand is given again at the end; 2: again, spelled ./file1.json
 }
 
 // runCfg runs the binary in dir with the given configuration.
@@ -124,6 +126,9 @@ func runCfg(c *Case, cc cliCase, cfg cliCfg, dir string) *cliOut {
 	if cfg.omode == "path" && cfg.stale {
 		// an existing, longer file at the -o path must be replaced, not overwritten in place
 		os.WriteFile(opath, []byte(strings.Repeat("STALE CONTENT OF AN EARLIER RUN\n", 200)), 0o644)
+	}
+	if cfg.inplace && cfg.omode == "path" && cfg.input == "files" && len(cc.inputs) == 1 {
+		opath = filepath.Join(dir, "file1.json")
 	}
 	switch cfg.omode {
 	case "-":
@@ -147,6 +152,12 @@ func runCfg(c *Case, cc cliCase, cfg cliCfg, dir string) *cliOut {
 			os.WriteFile(p, in, 0o644)
 			args = append(args, fmt.Sprintf("file%d.json", i+1))
 		}
+		switch cfg.dupFirst {
+		case 1:
+			args = append(args, "file1.json")
+		case 2:
+			args = append(args, "./file1.json")
+		}
 	}
 	r := RunCli(c.env.Jqawk, args, stdin, dir, 60*time.Second)
 	o := &cliOut{exit: r.Exit, stdout: string(r.Stdout), stderr: string(r.Stderr), fault: cliFault(r)}
@@ -155,6 +166,9 @@ func runCfg(c *Case, cc cliCase, cfg cliCfg, dir string) *cliOut {
 	}
 	if b, err := os.ReadFile(opath); err == nil && !(cfg.stale && strings.HasPrefix(string(b), "STALE CONTENT") && strings.Count(string(b), "STALE") == 200) {
 		o.ofile, o.hasO = string(b), true
+		if cfg.inplace && r.Exit != 0 && len(cc.inputs) == 1 && bytes.Equal(b, cc.inputs[0]) {
+			o.ofile, o.hasO = "", false // a failed run left the input file as it was: nothing was written
+		}
 	}
 	return o
 }
@@ -192,6 +206,13 @@ func c14Run(c *Case) {
 			cc.inputs = append(cc.inputs, c14Doc(rng))
 		}
 	}
+	if cfg.input == "files" && len(cc.inputs) == 1 && cfg.omode == "path" && c.Idx%3 == 0 {
+		cfg.inplace = true // rewrite the input file in place
+		cfg.stale = false
+	}
+	if cfg.input == "files" && cfg.omode == "" && c.Idx%5 == 0 && !strings.Contains(cc.prog, "$file") {
+		cfg.dupFirst = 1 + c.Idx/5%2 // the same file named twice is read twice, in the order given
+	}
 	for len(cc.sels) > nsel {
 		cc.sels = cc.sels[:len(cc.sels)-1]
 	}
@@ -227,6 +248,13 @@ func c14Run(c *Case) {
 			name = "<stdin>"
 		}
 		files = append(files, InFile{Name: name, Data: in})
+	}
+	if cfg.dupFirst != 0 {
+		files = append(files, files[0])
+		c.Count("cells_with_a_repeated_file_operand")
+	}
+	if cfg.inplace {
+		c.Count("cells_rewriting_the_input_in_place")
 	}
 	lib := RunLib(cc.prog, files, cc.sels, RunOpts{WantRoot: true, Budget: 400000})
 	if lib.Class == "budget" {
@@ -283,6 +311,9 @@ func c14Run(c *Case) {
 		return
 	}
 	c.Held()
+	if cfg.dupFirst != 0 {
+		return // the remaining relations are stated for operands that are all different
+	}
 	// R3: stdin vs the same bytes in a named file (programs that do not mention $file)
 	if len(cc.inputs) == 1 && cc.noFile && !strings.Contains(cc.prog, "$file") {
 		alt := cfg
@@ -496,7 +527,7 @@ func c14ErrorPaths(c *Case) {
 func init() {
 	register(&Prop{
 		ID: "C14", Level: "exploration",
-		Rule: "each case is a (program, inputs, selectors) triple from the pools of C02/C07/C09 plus failing programs, malformed inputs, JSONL, root-modifying programs and program texts with raw CR LF / tab / control bytes inside literals, run in one cell of the 54-cell configuration matrix {inline, -f} x {stdin, 1 file, 2-3 files} x {0, 1, 2 -r} x {no -o, -o -, -o FILE} (cells are visited round-robin by case index). Relations checked on the real binary: (R1) stdout, -o bytes and exit class equal the library's result on the same tree (files and selectors in the same order; -o with several inputs refused); (R2) -f FILE == inline; (R3) stdin == the same bytes in a file for programs that do not mention $file; (R4) the bytes `-o -` prints after the program's own output are exactly what `-o FILE` writes; (R5) `-r E` == `BEGINFILE { $ = E }` for side-effect-free selectors (members present / missing / out of range, method calls, literals) and programs that modify $ only in pattern rules, including what -o writes, also over several files and several values per input; (R6) two selectors print what each prints alone, one after the other, and -o writes what the last alone writes; (R7) for programs without state across values, a run over several files / several values per input / several selectors prints exactly the concatenation of the runs value by value (each processed once, in order). Enumerated: 16 error paths and orderings (missing program / input files, directory as input, unwritable -o, -o with two files, -o without any value, file and selector order, error after output) and strace-injected EIO. Non-trivial = the case produces output or an -o document; distinct by cell+program+inputs+selectors.",
+		Rule: "each case is a (program, inputs, selectors) triple from the pools of C02/C07/C09 plus failing programs, malformed inputs, JSONL, root-modifying programs and program texts with raw CR LF / tab / control bytes inside literals, run in one cell of the 54-cell configuration matrix {inline, -f} x {stdin, 1 file, 2-3 files} x {0, 1, 2 -r} x {no -o, -o -, -o FILE} (cells are visited round-robin by case index). Relations checked on the real binary: (R1) stdout, -o bytes and exit class equal the library's result on the same tree (files and selectors in the same order; -o with several inputs refused); in a third of the one-file cells -o FILE names the input file itself, in a fifth of the file cells the first file operand is repeated at the end (also spelled ./file); (R2) -f FILE == inline; (R3) stdin == the same bytes in a file for programs that do not mention $file; (R4) the bytes `-o -` prints after the program's own output are exactly what `-o FILE` writes; (R5) `-r E` == `BEGINFILE { $ = E }` for side-effect-free selectors (members present / missing / out of range, method calls, literals) and programs that modify $ only in pattern rules, including what -o writes, also over several files and several values per input; (R6) two selectors print what each prints alone, one after the other, and -o writes what the last alone writes; (R7) for programs without state across values, a run over several files / several values per input / several selectors prints exactly the concatenation of the runs value by value (each processed once, in order). Enumerated: 16 error paths and orderings (missing program / input files, directory as input, unwritable -o, -o with two files, -o without any value, file and selector order, error after output) and strace-injected EIO. Non-trivial = the case produces output or an -o document; distinct by cell+program+inputs+selectors.",
 		NumCases: func(tier string) int {
 			if tier == "thorough" {
 				return 1 + 54*1000
